@@ -75,13 +75,74 @@ def systematic(tier):
                     'config': {'kind': kind, 'threshold': None if kind == 'file' else [16, 8192][(j // 2) % 2],
                                'prewrap': bool((j // 4) % 2)},
                     'steps': []})
+    # every partition of short streams (exhaustive): tiny values of tiny types
+    m = 16 if tier == 'quick' else 300
+    for j in range(m):
+        r = rng.rng_for('C05-partitions', rng.verif_seed(), j)
+        w, cfg = common.gen_stream_workload(r, max_values=2, small=True)
+        kind = ['file', 'pipe', 'file'][j % 3]
+        out.append({'check': ID, 'workload': w, 'partitions': True, 'max_len': 9 if tier == 'quick' else 11,
+                    'close_with_last': bool(j % 2),
+                    'config': {'kind': kind, 'threshold': None if kind == 'file' else 8192, 'prewrap': False},
+                    'steps': []})
     return out
 
 
 def execute(plan):
     if plan.get('sweep'):
         return _execute_sweep(plan)
+    if plan.get('partitions'):
+        return _execute_partitions(plan)
     return _execute_one(plan)
+
+
+def _execute_partitions(plan):
+    """Every one of the 2^(|s|-1) partitions of a short stream into chunks, with a poll after
+    each chunk (the quantifier's 'exhaustively for short s')."""
+    try:
+        wl = W.Workload(plan['workload'])
+    except W.Skip as s:
+        return common.skip_result(s.reason)
+    total = len(wl.stream)
+    if total > plan.get('max_len', 11) or total < 2:
+        return common.skip_result('not-short')
+    only = plan.get('only_mask')
+    agg = None
+    n = 0
+    for mask in ([only] if only is not None else range(1 << (total - 1))):
+        steps = []
+        size = 1
+        for bit in range(total - 1):
+            if mask >> bit & 1:
+                steps += [['deliver', 0, size], ['poll', 0]]
+                size = 1
+            else:
+                size += 1
+        steps += [['deliver', 0, size], ['poll', 0]]
+        if plan.get('close_with_last'):
+            steps.insert(len(steps) - 1, ['close', 0])
+        steps.append(['drain'])
+        sub = dict(plan)
+        sub.pop('partitions')
+        sub['steps'] = steps
+        res = _execute_one(sub, wl)
+        n += 1
+        if res['status'] == 'violation':
+            res['detail'] = dict(res['detail'], partition_mask=mask)
+            res['evals'] = n
+            return res
+        if res['status'] == 'skip':
+            return res
+        if agg is None:
+            agg = res
+        else:
+            common.merge_result(agg, res)
+    if agg is None:
+        return common.skip_result('empty-stream')
+    agg['evals'] = n
+    agg['weight'] = n
+    agg['counters']['probe.exhaustive_partitions'] = n
+    return agg
 
 
 def _execute_sweep(plan):
